@@ -181,6 +181,31 @@ func (vc *VC) siteAsserts(st *State, kind, anchor string, ord int, when string, 
 
 // droppedCall: result unconstrained apart from a few library facts.
 func (vc *VC) droppedCall(st *State, resV ssa.Value, callee *ssa.Function, c *ssa.CallCommon) {
+	// sorting permutes the elements of its slice argument and runs the comparator closure
+	if pk := callee.Pkg; pk != nil && (pk.Pkg.Path() == "sort" || pk.Pkg.Path() == "slices") {
+		comps := map[string]string{}
+		for _, a := range c.Args {
+			if sl, ok := a.Type().Underlying().(*types.Slice); ok {
+				ms := newModSet()
+				if isStructLike(sl.Elem()) {
+					vc.structMods(sl.Elem(), ms)
+				} else {
+					vc.msElem(ms, sl.Elem())
+				}
+				for k, v := range ms.comps {
+					comps[k] = v
+				}
+			}
+		}
+		vc.havocCaptured(st, c)
+		if len(comps) > 0 {
+			saved := vc.spec.HasAssigns
+			vc.spec.HasAssigns = false // sorting a local slice is not a frame violation by itself
+			vc.havocComps(st, comps, "sort permutes "+callee.Name())
+			vc.spec.HasAssigns = saved
+			vc.assumedUse["sort/slices functions permute their slice argument (elements havocked, no other effect)"] = true
+		}
+	}
 	if resV == nil {
 		return
 	}
@@ -209,10 +234,21 @@ func (vc *VC) droppedCall(st *State, resV ssa.Value, callee *ssa.Function, c *ss
 
 // havocCaptured forgets the caller's local cells that a closure captures by reference and assigns.
 func (vc *VC) havocCaptured(st *State, c *ssa.CallCommon) {
+	// closures handed to the callee as arguments (ForEachNode(func...), sort.Slice(..., less)) may run and assign
+	// the variables they capture
+	for _, a := range c.Args {
+		if amc, ok := a.(*ssa.MakeClosure); ok {
+			vc.havocClosureCells(st, amc)
+		}
+	}
 	mc, ok := c.Value.(*ssa.MakeClosure)
 	if !ok {
 		return
 	}
+	vc.havocClosureCells(st, mc)
+}
+
+func (vc *VC) havocClosureCells(st *State, mc *ssa.MakeClosure) {
 	fn, ok := mc.Fn.(*ssa.Function)
 	if !ok {
 		return
@@ -298,12 +334,28 @@ func (vc *VC) invoke(st *State, resV ssa.Value, c *ssa.CallCommon) error {
 		return nil
 	}
 	// contract attached to the interface method: pkg.Iface.Method
-	if named, ok := c.Value.Type().(*types.Named); ok {
+	if named, ok := c.Value.Type().(*types.Named); ok && named.Obj().Pkg() != nil {
 		key := named.Obj().Pkg().Name() + "." + named.Obj().Name() + "." + c.Method.Name()
-		if spec := vc.cs.Funcs[key]; spec != nil {
+		allArgs := append([]ssa.Value{c.Value}, c.Args...)
+		ord := 0
+		if vc.inlineDepth == 0 {
 			vc.callOrd[key]++
-			return vc.callContractGeneric(st, resV, c, spec, key, vc.callOrd[key], c.Method.Type().(*types.Signature), append([]ssa.Value{c.Value}, c.Args...), nil, true)
+			ord = vc.callOrd[key]
+			if err := vc.siteAsserts(st, "call", key, ord, "before", allArgs, nil); err != nil {
+				return err
+			}
 		}
+		if spec := vc.cs.Funcs[key]; spec != nil {
+			if err := vc.callContractGeneric(st, resV, c, spec, key, ord, c.Method.Type().(*types.Signature), allArgs, nil, true); err != nil {
+				return err
+			}
+		} else {
+			vc.unknownCall(st, resV, c, "interface call "+c.Method.Name())
+		}
+		if vc.inlineDepth == 0 {
+			return vc.siteAsserts(st, "call", key, ord, "after", allArgs, resV)
+		}
+		return nil
 	}
 	vc.unknownCall(st, resV, c, "interface call "+c.Method.Name())
 	return nil
